@@ -143,3 +143,38 @@ def exact_poly_integral_over_area2(mon, t):
         tot += Fraction(coef) * v
         mag += abs(Fraction(coef)) * sum(abs(x) * dirichlet(0, i, j) for (i, j), x in p.items())
     return tot, mag
+
+# ---------------------------------------------------------------- evaluation points on the lines carrying the edges
+def _ulp(x):
+    return math.ulp(abs(x)) if x != 0 else 5e-324
+
+def dyadic_triangle(rng):
+    """vertices with small dyadic coordinates (k/8, |k| <= 24), not degenerate: affine combinations with dyadic
+    parameters are then exact in doubles"""
+    while True:
+        t = [tuple(rng.randint(-24, 24) / 8.0 for _ in range(3)) for _ in range(3)]
+        n = cross(sub(t[1], t[0]), sub(t[2], t[0]))
+        if dot(n, n) > 0.05: return t
+
+def edge_line_points(rng, t, dyadic=False, margin=0.05):
+    """[(point, kind)]: for each edge (a,b) of t, in both orientations, points a - s (b-a) on the extension beyond a
+    (s in 0.05..3 edge lengths, and s = 1: the mirror image of b in a), exactly collinear ('line', computed with the
+    rounding of the generic doubles, or exact when dyadic) and collinear-with-edge but 1 ulp .. 1e-12 off the line
+    ('nearline').  Only points at least margin*size away from the triangle are kept."""
+    size = tri_size(t); out = []
+    nrm = tri_normal(t)
+    for k in range(3):
+        for (a, b) in ((t[k], t[(k + 1) % 3]), (t[(k + 1) % 3], t[k])):
+            e = sub(b, a)
+            ss = [1.0, rng.choice([0.0625, 0.125, 0.25, 0.5, 2.0, 3.0]) if dyadic else math.exp(rng.uniform(math.log(0.05), math.log(3.0)))]
+            for s in ss:
+                p = sub(a, mul(s, e))
+                if dist_point_triangle(p, t) < margin * size: continue
+                out.append((p, "line"))
+                # slightly off the line: in the plane (perpendicular to the edge) or along the normal
+                d = cross(nrm, e); dl = norm(d)
+                if dl > 0:
+                    d = mul(1.0 / dl, d)
+                    off = rng.choice([1.0, 2.0, 8.0]) * max(_ulp(c) for c in p) if rng.random() < 0.5 else math.exp(rng.uniform(math.log(1e-16), math.log(1e-12))) * size
+                    out.append((add(p, mul(off * rng.choice([-1, 1]), d if rng.random() < 0.7 else nrm)), "nearline"))
+    return out
